@@ -2,3 +2,7 @@ import FFSM2.Gen.Consts
 import FFSM2.BitStream
 import FFSM2.Lemmas.BitStream
 import FFSM2.Props.C13
+import FFSM2.BitArray
+import FFSM2.Arrays
+import FFSM2.Lemmas.BitArray
+import FFSM2.Props.C20
